@@ -225,6 +225,48 @@ def oracle(case, out):
     return None
 
 
+def wrap_territory(case):
+    w = case.split()
+    r0 = int(w[-2])
+    return r0 < 0 or r0 >= (1 << 31) - 1
+
+
+def limited_budget(case):
+    w = case.split()
+    return int(w[5] if w[1] == "exp" else w[4]) > 0
+
+
+WRAP_PROBES = ["probe fixed 7 3 2147483647 0", "probe exp 1000 1000000 3 2147483647 0"]
+
+
+def int32_wrap_finding(c, binary):
+    """Known finding: after 2^31 Next calls the int32 counter wraps to -2^31 <= maxRetries and a strategy whose
+    budget (maxRetries = 3) is long spent grants retries again (theorem budget_wraps_after_2p31_refuted).
+    Instant white-box probe in both tiers (counter set to 2^31-1, one Next), the real loop in thorough."""
+    rc, out, err = c.run_impl(binary, ["c19"], "\n".join(WRAP_PROBES) + "\n")
+    seen = []
+    for cs, o in zip(WRAP_PROBES, out):
+        f = o.split()
+        if len(f) >= 2 and f[0] == "ok" and f[1].endswith(":1"):
+            seen.append((cs, o))
+    c.cov["int32_wrap_probe"] = {"cases": WRAP_PROBES, "implementation": out, "wrap_observed": [cs.split()[1] for cs, _ in seen]}
+    real = None
+    if c.tier == "thorough":
+        rc, o2, err = c.run_impl(binary, ["c19"], "wrapreal 3\n", timeout=900)
+        real = o2[0] if o2 else None
+        c.cov["int32_wrap_replay"] = {"case": "wrapreal 3", "implementation": real}
+        if real and real.endswith("call_2p31=1:1"):
+            seen.append(("wrapreal 3", real))
+    if seen:
+        c.report("C19:budget:int32-wrap",
+                 "after 2^31 Next calls the int32 retries counter wraps negative and a strategy with maxRetries=3 grants retries again "
+                 "(%s)" % "; ".join("%s -> %s" % x for x in seen),
+                 {"kind": "input", "cases": [x[0] for x in seen], "implementation": [x[1] for x in seen],
+                  "theorem": "budget_wraps_after_2p31_refuted; budget_exact is stated for fewer than 2^31 calls",
+                  "how": "echo 'probe fixed 7 3 2147483647 0' | <harness> c19   (counter set to 2^31-1 by reflect+unsafe, then one Next); "
+                         "echo 'wrapreal 3' | <harness> c19   (really performs 2^31 calls, ~13 s)"})
+
+
 def retry_fields(out):
     d = {}
     head, _, tail = out.partition(" | ")
@@ -336,6 +378,12 @@ def main(tier):
         mo = model[k] if k < len(model) else "<missing>"
         c.note_case(cs, not o.startswith("err"))
         why = oracle(cs, o)
+        if cs.startswith("probe") and wrap_territory(cs):
+            # states only reachable after >= 2^31 calls (known finding C19:budget:int32-wrap): accept the model's
+            # (wrapping) answer or, for a limited budget, a refusal — a later repair of the code is not an alarm
+            if o.split()[:2] == mo.split()[:2] or (limited_budget(cs) and o.split()[:2] == ["ok", "0:0"]):
+                agree += 1
+                continue
         if why:
             sig, reason = why
             rep = {"kind": "input", "case": cs, "implementation": o[:600], "model": mo[:600],
@@ -392,14 +440,8 @@ def main(tier):
         mins[dbg] = slack
     c.cov["retry_min_gap_minus_interval_ns"] = mins
     c.cov["traces_validated_against_impl"] = agree
-    # ---- int32 counter wrap: a real loop of 2^31 Next calls (thorough only; outside the theorem's bound) ----
-    if tier == "thorough":
-        rc, out, err = c.run_impl(binary, ["c19"], "wrapreal 3\n", timeout=600)
-        c.cov["int32_wrap_replay"] = {"case": "wrapreal 3", "implementation": out[0] if out else None,
-                                      "theorem": "budget_wraps_after_2p31_refuted (budget_exact is stated for fewer than 2^31 calls)"}
-        if out and out[0].endswith("call_2p31=1:1"):
-            c.known_lines.append("KNOWN-FINDING: property=C19 candidate (outside the stated bound of budget_exact): after 2^31 Next calls the int32 "
-                                 "counter wraps and a strategy with maxRetries=3 grants retries again (%s)" % out[0])
+    # ---- int32 counter wrap (known finding; never a C19:budget violation) ----
+    int32_wrap_finding(c, binary)
     # ---- cross-check the OCaml extraction against vm_compute inside Coq ----
     r = random.Random(c.seed + 1)
     sp = [(cs, model[k]) for k, cs in enumerate(static) if cs.startswith("seq")]
